@@ -350,6 +350,42 @@ _err_cases = st.fixed_dictionaries(dict(
     vals=st.lists(st.floats(min_value=-5, max_value=5), min_size=1, max_size=6),
     bad=st.sampled_from(["percentile", "", "BCA", "studentized"])))
 
+def _tiny_cases(tier):
+    for n in (40, 100, 200):
+        for shape_ in ("exp", "exp2", "lognormal-ish"):
+            for k in (300, 330, 340, 346, -300):
+                for method in ("quantile", "bc", "bca"):
+                    yield dict(n=n, shape=shape_, k=k, method=method)
+
+
+def check_tiny(case):
+    """Skewed replicates multiplied by an exact power of two down to 2^-346 (all values still normal
+    floats; round 10, c13-s: a guard on the acceleration's denominator that treats tiny as zero): the limits
+    are the limits of the unscaled replicates times the same factor (equivariance under increasing affine
+    maps, exact for a power of two up to the rounding of the cubes)."""
+    from score_analysis.utils import bootstrap_ci
+
+    n, k, method = case["n"], case["k"], case["method"]
+    u = [(i + 0.5) / n for i in range(n)]
+    base = [-math.log(1.0 - x) for x in u]
+    if case["shape"] == "exp2":
+        base = [b * b for b in base]
+    elif case["shape"] == "lognormal-ish":
+        base = [math.exp(1.5 * norm_ppf(x)) for x in u]
+    perm = np.argsort(np.sin(np.arange(n) * 3.3), kind="stable")
+    theta = np.asarray(base)[perm]
+    f = 2.0 ** -k
+    for est in (float(np.median(theta)), float(np.mean(theta)) * 0.9):
+        for alpha in (0.05, 0.2):
+            ref = np.asarray(bootstrap_ci(theta, est, alpha, method=method), dtype=float)
+            got = np.asarray(bootstrap_ci(theta * f, est * f, alpha, method=method), dtype=float) / f
+            require(got.shape == ref.shape == (2,), "bci:shape", f"{got.shape}")
+            require(bool(np.all(np.abs(got - ref) <= 1e-6 * np.abs(ref))), "bci:affine",
+                    lambda: f"{method} n={n} {case['shape']} replicates x 2^{-k}, estimate {est!r} x 2^{-k}, alpha={alpha}: "
+                            f"limits / 2^{-k} = {got.tolist()} but the unscaled replicates give {ref.tolist()}")
+    return dict(nontrivial=method != "quantile", labels=[f"k:{k}", f"method:{method}"])
+
+
 PROP = Prop(
     id="C13",
     rule=("Hypothesis: replicate arrays (N,)+Y, N in 1..40, Y of rank 0-2, contents normal-like / "
@@ -367,6 +403,8 @@ PROP = Prop(
     clauses=[
         Clause("formulas", check, strategy=_cases(), quick=700, thorough=14000, quick_shards=4,
                min_nontrivial=200, doc="documented formulas and their corollaries"),
+        Clause("tiny_scale", check_tiny, kind="enum", cases=_tiny_cases, quick_shards=4, shards=4,
+               min_nontrivial=60, doc="skewed replicates times 2^-300..2^-346 / 2^300: limits scale by the same factor"),
         Clause("corners", check_corners, strategy=_corner_cases(), quick=150, thorough=3000, quick_shards=2,
                min_nontrivial=50, doc="alpha below 2.2e-16; int8 / bool / long-double replicates"),
         Clause("errors", check_errors, strategy=_err_cases, quick=30, thorough=240, shards=1,
@@ -377,4 +415,4 @@ PROP = Prop(
                  "finite replicates' claim presupposes one)"],
 )
 
-RULE_EXTRA = ('components of one call scaled by factors from 2^-250 to 2^190 apart (cubes stay below the overflow threshold); alpha arrays in Fortran order / as transposed views; replicates scaled by 1e-8..1e5 and by 2^-260..2^250 with purely relative tolerances; alphas 1e-12..1-1e-9; float32 / int64 / Fortran-ordered replicate arrays.')
+RULE_EXTRA = ('clause tiny_scale: skewed replicates times exact powers of two down to 2^-346 (values normal, cubes of deviations subnormal) - limits equal the unscaled limits times the factor (rtol 1e-6); components of one call scaled by factors from 2^-250 to 2^190 apart (cubes stay below the overflow threshold); alpha arrays in Fortran order / as transposed views; replicates scaled by 1e-8..1e5 and by 2^-260..2^250 with purely relative tolerances; alphas 1e-12..1-1e-9; float32 / int64 / Fortran-ordered replicate arrays.')
